@@ -20,7 +20,7 @@ COMPONENTS = {
     'stub': ['seeded scheduler', 'DB-API proxy', 'SimLock'],
 }
 
-STEP_W = [('load', 1), ('read', 5), ('write', 3), ('rmw', 3), ('incr', 2), ('flush', 1), ('query', 1),
+STEP_W = [('load', 1), ('read', 4), ('read_dict', 2), ('write', 3), ('rmw', 3), ('incr', 2), ('flush', 1), ('query', 1),
           ('lock', 1), ('commit', 1)]
 
 
